@@ -3,6 +3,7 @@ import Gama.Model.GaussNewton
 import Gama.Model.AcordAzimuth
 import Gama.Model.AcordHdiffVector
 import Gama.Model.AcordZderived
+import Gama.Model.AcordIntersection
 import Gama.Model.PointId
 import Gama.Model.LinTypes
 open Gama Gama.Proto Gama.Cogo
@@ -147,8 +148,111 @@ def showCands (ids : List String) (cand : List (PID × Float)) : List String :=
     let vs := (cand.filter (fun c => decide (c.1 = pid id))).map (·.2)
     if vs.isEmpty then none else some (s!"cand {id}" ++ vs.foldl (fun a v => a ++ " " ++ showFloat v) ""))
 
+
+/-! ### `acord intersection …`: AcordIntersection::execute (Gama/Model/AcordIntersection.lean) -/
+section InterStream
+open Gama.Inter
+
+structure ICase where
+  ids : List String := []
+  pts : List (PID × LP Float × Bool × Bool) := []
+  cls : List (Cl PID Float) := []          -- reversed; the open cluster is the head
+  sp : List Bool := []                     -- reversed: is the cluster a StandPoint
+  extra : Bool := false                    -- an Azimuth or Xdiff is present (`solvable_data`)
+
+def ICase.note (c : ICase) (id : String) : ICase :=
+  if c.ids.contains id then c else { c with ids := c.ids ++ [id] }
+
+def ICase.add (c : ICase) (o : HObs PID Float) : Option ICase :=
+  match c.cls with
+  | cl :: rest => some { c with cls := { cl with obs := cl.obs ++ [o] } :: rest }
+  | [] => none
+
+/-- `Observation::norm_rad_val` of the constructors (generated values are already in [0, 2π)) -/
+def nrm (v : Float) : Float := normRad v
+
+def parseInter : Nat → List String → ICase → Option ICase
+  | 0, _, _ => none
+  | _, [], c => some c
+  | n + 1, "P" :: id :: bxy :: x :: y :: bz :: z :: axy :: az :: rest, c =>
+    match num? x, num? y, num? z with
+    | some x, some y, some z =>
+      let p : LP Float := ⟨if bxy != "0" then x else 0, if bxy != "0" then y else 0, if bz != "0" then z else 0,
+                           bxy != "0", bz != "0"⟩
+      parseInter n rest { (c.note id) with pts := c.pts ++ [(pid id, p, axy != "0", az != "0")] }
+    | _, _, _ => none
+  | n + 1, "S" :: st :: rest, c => parseInter n rest { (c.note st) with cls := ⟨none, []⟩ :: c.cls, sp := true :: c.sp }
+  | n + 1, "H" :: rest, c => parseInter n rest { c with cls := ⟨none, []⟩ :: c.cls, sp := false :: c.sp }
+  | n + 1, "V" :: rest, c => parseInter n rest { c with cls := ⟨none, []⟩ :: c.cls, sp := false :: c.sp }
+  | n + 1, "ang" :: f :: bs :: fs :: v :: rest, c =>
+    match num? v with
+    | some v =>
+      match (((c.note f).note bs).note fs).add (.angle (pid f) (pid bs) (pid fs) (nrm v)) with
+      | some c => parseInter n rest c
+      | none => none
+    | none => none
+  | n + 1, k :: f :: t :: v :: rest, c =>
+    match num? v with
+    | none => none
+    | some v =>
+      let c := (c.note f).note t
+      let f := pid f
+      let t := pid t
+      if k == "sd" || k == "za" then
+        match rest with
+        | _ :: _ :: rest =>
+          match c.add (if k == "sd" then .sdistance f t v else .zangle f t v) with
+          | some c => parseInter n rest c
+          | none => none
+        | _ => none
+      else
+        let c' : Option ICase :=
+          match k with
+          | "az" => ({ c with extra := true } : ICase).add (.azimuth f t (nrm v))
+          | "d" => c.add (.distance f t v)
+          | "dir" => c.add (.direction f t (nrm v))
+          | "hd" => if c.cls.isEmpty then none else some c
+          | "dx" => if c.cls.isEmpty then none else some { c with extra := true }
+          | "dy" => if c.cls.isEmpty then none else some c
+          | "dz" => if c.cls.isEmpty then none else some c
+          | _ => none
+        match c' with
+        | some c => parseInter n rest c
+        | none => none
+  | _, _, _ => none
+
+def interOp (reps : Nat) (cs : Lin.CS) (rh : Bool) (rest : List String) : String :=
+  match parseInter (rest.length + 1) rest {} with
+  | none => "bad-op"
+  | some c =>
+    let cls := c.cls.reverse
+    let sp := c.sp.reverse
+    let xN : Float := Lin.xNorthAngle cs rh
+    let pd : Acord.PD PID Float := fun i => match c.pts.reverse.find? (fun p => decide (p.1 = i)) with
+      | some p => p.2.1 | none => Acord.LP.unset
+    let last := c.pts.filter (fun p => match c.pts.reverse.find? (fun q => decide (q.1 = p.1)) with
+      | some q => q.2.2.1 == p.2.2.1 && q.2.2.2 == p.2.2.2 && q.2.1.bxy == p.2.1.bxy && q.2.1.bz == p.2.1.bz | none => false)
+    let keys := Acord.dedup (c.pts.map (·.1))
+    let st0 : AiState PID Float := ⟨pd, cls.map (·.ori), Acord.dedup (Acord.missingXY last), salDefault⟩
+    let r := (List.range reps).foldl (fun (as : AiAlg × AiState PID Float) _ =>
+      aiExecute 64 PointId.lt keys c.extra xN cls as.1 as.2) ({}, st0)
+    let stA : Acord.St PID Float := ⟨r.2.pd, r.2.missXY, Acord.dedup (Acord.missingZ last), []⟩
+    let oriLines := ((List.range cls.length).zip (sp.zip r.2.oris)).filterMap (fun x =>
+      if x.2.1 then
+        some (match x.2.2 with
+          | some o => s!"ori {x.1} 1 {showFloat o}"
+          | none => s!"ori {x.1} 0 {showFloat 0}")
+      else none)
+    "\n".intercalate (showPts c.ids stA ++ oriLines ++ [s!"completed {if r.1.completed then 1 else 0}"])
+
+end InterStream
+
 def acordOp (ts : List String) : String :=
   match ts with
+  | "intersection" :: reps :: cs :: rh :: rest =>
+    match reps.toNat?, cs.toNat? >>= Lin.CS.ofNat? with
+    | some reps, some cs => interOp reps cs (rh != "0") rest
+    | _, _ => "bad-op"
   | alg :: reps :: cs :: rh :: rest =>
     match reps.toNat?, cs.toNat? >>= Lin.CS.ofNat?, parseAcord (rest.length + 1) rest {} with
     | some reps, some cs, some c =>
